@@ -151,3 +151,26 @@ fn c06_state_view() {
     assert!((s == CollectionState::Poisoned) == (l == LIFECYCLE_POISONED), "OBL:C06.life.state_active_iff");
     kani::cover!(true, "COVER:reach");
 }
+
+/// Thorough tier: mutator sequences of length 5.
+#[kani::proof]
+#[kani::unwind(7)]
+fn c06_terminal_is_absorbing_5() {
+    let (l, ro, dro): (u8, bool, bool) = (kani::any(), kani::any(), kani::any());
+    kani::assume(l >= LIFECYCLE_CLOSING && l <= LIFECYCLE_POISONED);
+    let v = view(l, ro, dro);
+    let mut k = 0;
+    while k < 5 {
+        let op: u8 = kani::any();
+        if op == 0 {
+            v.set_read_only(kani::any());
+        } else {
+            v.poison("verif");
+        }
+        let r = ManuallyDrop::new(v.ensure_mutable());
+        assert!(r.is_err(), "OBL:C06.life.terminal_is_absorbing");
+        assert!(!v.is_active_handle(), "OBL:C06.life.terminal_is_absorbing");
+        k += 1;
+    }
+    kani::cover!(true, "COVER:reach");
+}
